@@ -21,6 +21,8 @@ SPECS = {
     "pair3": dict(vars={"x1": [5, 0, 2], "x2": ["a", "b"]}, cons=[["x2", "x1"]]),
     "single": dict(vars={"x1": ([5, 0, 2], "func")}, cons=[]),
     "single_unary": dict(vars={"x1": [5, 0, 2]}, cons=[["x1"]]),
+    # a variable nobody mentions, whose values cannot be ordered with one another (every value costs the same: a tie)
+    "iso_mixed": dict(vars={"x1": [0, 1], "x2": ["a", "b"], "x3": ["auto", 1, 2.5]}, cons=[["x1", "x2"]]),
     "diamond": dict(vars={"x1": [0, 1], "x2": ["a", "b"], "x3": [7, 0], "x4": ["u", "v"]},
                     cons=[["x1", "x2"], ["x1", "x3"], ["x2", "x4"], ["x3", "x4"]]),
 }
@@ -96,7 +98,7 @@ def _shapes(tier, prop=None):
         dict(spec="nary", modes=["min"]),
         dict(spec="nary_unary", modes=["max"]),
         dict(spec="two_components", modes=["min"]),
-        dict(spec="single"), dict(spec="single_unary"),
+        dict(spec="single"), dict(spec="single_unary"), dict(spec="iso_mixed", modes=["min"]),
         dict(spec="chain3", modes=["min"], policy="random", sched_seed=1, interleave_start=True, start_order="rev"),
         # one sibling's UTIL overtakes the other's / the leaves start before their parents
         dict(spec="star", modes=["max"], policy="favor:x3", start_order="rev"),
